@@ -8,6 +8,7 @@ does not).  Torn versions of every file write between consecutive states are
 synthesised.  Every state is materialised and opened."""
 import os
 import random
+import re
 import sys
 from pathlib import Path
 
@@ -21,11 +22,13 @@ from ..monitors import bits_equal, snapshot
 PID = 'C17'
 LEVEL = 'fault_enumeration'
 RULE = ('scenarios {append, iterappend of 3 chunks, iterappend whose iterable raises after 2 chunks (recovery path), '
-        'iterappend with a bad third chunk, truncate to 1 / to 0, metadata setitem / update / pop / pop of the last key} x '
+        'iterappend with a bad third chunk, iterappend with zero-row chunks, two appends, truncate to 1 / 0 / -1, truncate then '
+        'append, metadata setitem / update / pop / popitem / del / pop of the last key} x '
         '{Array 1-D, Array 2-D, RaggedArray atom (), RaggedArray atom (2,)} x {empty, non-empty start} x dtypes; every '
         'distinct directory state observed between two executed Darr source lines (LINE events), plus torn variants of every '
         'file that differs between consecutive states (emptied; old + 1 byte / half / all-but-one of the appended tail; '
-        'prefix of rewritten text at 1 / half / len-1; missing). Each state is materialised and opened with Array / '
+        'prefix of rewritten text at 1 / half / len-1; new text over the tail of the old; thorough: every cut point up to 64 '
+        'bytes, ~48 strided cuts beyond). Each state is materialised and opened with Array / '
         'RaggedArray and dict(metadata): a successful open must show a legitimate state. Non-trivial = a state that differs '
         'from both the initial and the final state; distinct by content hash of the state')
 EXHAUSTIVE = True
@@ -38,8 +41,9 @@ ANCHORS = ['array:Array.iterappend', 'array:Array._append', 'array:Array._update
 REQUIRED = ['mon.line_states', 'mon.torn_states', 'mon.opens_raised', 'mon.opens_succeeded_legit']
 MIN_NONTRIVIAL = {'quick': 1500, 'thorough': 15000}
 
-OPS = ['append', 'iterappend3', 'iterappend_raises', 'iterappend_badchunk', 'truncate1', 'truncate0',
-       'md_setitem', 'md_update', 'md_pop', 'md_poplast']
+OPS = ['append', 'iterappend3', 'iterappend_raises', 'iterappend_badchunk', 'iterappend_empty_chunks', 'append_twice',
+       'truncate1', 'truncate0', 'truncatem1', 'truncate_then_append', 'md_setitem', 'md_update', 'md_pop', 'md_poplast',
+       'md_popitem', 'md_del']
 KINDS = ['array1d', 'array2d', 'ragged', 'ragged2']
 
 
@@ -51,6 +55,8 @@ def cases(tier, seed):
             for start in ('empty', 'nonempty'):
                 for op in OPS:
                     if start == 'empty' and op.startswith('truncate'):
+                        continue
+                    if tier == 'quick' and (nt, bo) != combos[0] and op in ('append_twice', 'md_popitem', 'md_del', 'truncatem1'):
                         continue
                     yield {'kind': kind, 'start': start, 'op': op, 'numtype': nt, 'bo': bo}
 
@@ -105,6 +111,21 @@ def materialise(state, dest):
             p.write_bytes(content)
 
 
+DENSE = {'on': False}
+
+
+def cuts(n):
+    """Cut points 0 < c < n: three in quick, every one (up to 64, then strided) in thorough."""
+    if n <= 1:
+        return []
+    if not DENSE['on']:
+        return sorted({1, n // 2, n - 1} - {0, n})
+    if n <= 64:
+        return list(range(1, n))
+    step = max(1, n // 48)
+    return sorted(set(range(1, n, step)) | {1, n // 2, n - 1})
+
+
 def torn_variants(a, b):
     """States between snapshot a and its successor b in which one changed file is only partly written."""
     out = []
@@ -120,17 +141,17 @@ def torn_variants(a, b):
         cands.append(('emptied', b''))
         if old is not None and len(new) > len(old) and new.startswith(old):
             tail = new[len(old):]
-            for name, cut in (('tail+1', 1), ('tail-half', len(tail) // 2), ('tail-allbutone', len(tail) - 1)):
-                if 0 < cut < len(tail):
-                    cands.append((name, old + tail[:cut]))
+            for cut in cuts(len(tail)):
+                cands.append((f'tail+{cut}of{len(tail)}' if DENSE['on'] else
+                              {1: 'tail+1', len(tail) - 1: 'tail-allbutone'}.get(cut, 'tail-half'), old + tail[:cut]))
         elif old is not None and len(new) < len(old) and old.startswith(new):
             mid = (len(old) + len(new)) // 2
             if len(new) < mid < len(old):
                 cands.append(('shrink-half', old[:mid]))
         else:
-            for name, cut in (('prefix-1', 1), ('prefix-half', len(new) // 2), ('prefix-allbutone', len(new) - 1)):
-                if 0 < cut < len(new):
-                    cands.append((name, new[:cut]))
+            for cut in cuts(len(new)):
+                cands.append((f'prefix-{cut}of{len(new)}' if DENSE['on'] else
+                              {1: 'prefix-1', len(new) - 1: 'prefix-allbutone'}.get(cut, 'prefix-half'), new[:cut]))
             if old is not None and len(old) > len(new):
                 # in-place rewrite without truncation would leave new + tail of old
                 cands.append(('new-over-old-tail', new + old[len(new):]))
@@ -149,6 +170,7 @@ def chunks_for(dtype, trail, rng):
 def run_case(case, env):
     res = Result()
     D = env.darr
+    DENSE['on'] = env.tier == 'thorough'
     rng = env.rng('c17', repr(sorted(case.items())))
     dtype = gens.dt(case['numtype'], case['bo'])
     kind, op, start = case['kind'], case['op'], case['start']
@@ -197,10 +219,29 @@ def run_case(case, env):
                     legit += [cat(1), cat(2)]
                     bad = np.zeros((1,) + trail + (2,), dtype=dtype)
                     h.iterappend(iter([chunks[0], chunks[1], bad]))
-                elif op in ('truncate1', 'truncate0'):
-                    idx = 1 if op == 'truncate1' else 0
+                elif op == 'iterappend_empty_chunks':
+                    empty = gens.random_values(rng, dtype, (0,) + trail)
+                    seq = [empty, chunks[0], empty, chunks[1]]
+                    legit += [cat(1), cat(2)] if not ragged else \
+                        [before + seq[:k] for k in range(1, 5)]
+                    h.iterappend(iter(seq))
+                elif op == 'append_twice':
+                    legit += [cat(1), cat(2)]
+                    h.append(chunks[0])
+                    h.append(chunks[1])
+                elif op in ('truncate1', 'truncate0', 'truncatem1'):
+                    idx = {'truncate1': 1, 'truncate0': 0, 'truncatem1': -1}[op]
                     legit.append(before[:idx])
                     (D.truncate_raggedarray if ragged else D.truncate_array)(h, idx)
+                elif op == 'truncate_then_append':
+                    t = before[:1]
+                    legit.append(t)
+                    if ragged:
+                        legit.append(list(t) + [chunks[0]])
+                    else:
+                        legit.append(np.concatenate([t, chunks[0]], axis=0).astype(dtype))
+                    (D.truncate_raggedarray if ragged else D.truncate_array)(h, 1)
+                    h.append(chunks[0])
                 elif op == 'md_setitem':
                     legit_md.append({'a': 1, 'b': [1, 2], 'c': 'x' * 50})
                     h.metadata['c'] = 'x' * 50
@@ -210,6 +251,12 @@ def run_case(case, env):
                 elif op == 'md_pop':
                     legit_md.append({'b': [1, 2]})
                     h.metadata.pop('a')
+                elif op == 'md_popitem':
+                    legit_md += [{'a': 1}, {'b': [1, 2]}]
+                    h.metadata.popitem()
+                elif op == 'md_del':
+                    legit_md.append({'a': 1})
+                    del h.metadata['b']
                 elif op == 'md_poplast':
                     legit_md += [{'b': [1, 2]}, {}]
                     h.metadata.pop('a')
@@ -246,7 +293,7 @@ def run_case(case, env):
                 ok = any(same(got, l, ragged) for l in legit)
                 if not ok:
                     desc = f'{len(got)} subarrays' if ragged else f'shape {got.shape}'
-                    res.fail(f'illegitimate-open:{op}:{sk}:{name.split(":")[-2] if sk == "torn" else "between-lines"}',
+                    res.fail(f'illegitimate-open:{op}:{sk}:{re.sub(r'[0-9]+of[0-9]+', 'N', name.split(':')[-1]) if sk == 'torn' else 'between-lines'}',
                              f'{kind} {start} {op}: crash state {name} opens successfully showing {desc}, which is neither the '
                              f'state before, after, nor original + whole chunks', state=name, **case)
                     break
